@@ -37,6 +37,9 @@ structure Tr where
   pair `(address, denom)`, the class of `TokenPair(denom)` and `TokenPair(address)`:
   `"s"` the same pair, `"o"` another pair, `"n"` not found -/
   lookups : List (Addr × Denom × String × String)
+  /-- the world has been honest so far: since it was created no scripted deviation was accepted, no
+  receipt was forged (bare hook invocation) and no contract self-destructed (C03 speaks of such worlds) -/
+  clean : Bool
   /-- the previous transition of the trace (for round trips): op, ok, resp, its pre-state, honest -/
   prev : Option (DOp × Bool × Resp × World TState × Bool)
 
@@ -370,6 +373,47 @@ def c04_roundtrip (t : Tr) : Bool :=
     !back || (sameBank w0.st t.post.st && sameTok w0.evm t.post.evm)
   | _, _ => true
 
+/-! ## C03 (honest worlds) -/
+
+def modulePairs (r : Registry) : List Pair := r.list.filter (fun p => p.owner == .module)
+def externalPairs (r : Registry) : List Pair := r.list.filter (fun p => p.owner == .external)
+
+/-- escrow − total supply of a chain-deployed pair -/
+def gap (env : Env) (w : World TState) (p : Pair) : Int :=
+  (w.st.bank.get env.modAddr p.denom : Int) - (w.evm.supply p.addr : Int)
+
+/-- tokens of contract `c` a holder destroyed in this operation -/
+def burnedBy (t : Tr) (c : Addr) : Int :=
+  match t.op with
+  | .tx c' _ (.burn a) => if t.ok && c' == c && t.pre.evm.hasCode c then (a : Int) else 0
+  | _ => 0
+
+/-- chain-deployed pairs: escrow − total supply changes by exactly what holders destroyed themselves
+in this operation, and by nothing else -/
+def c03_nativeExact (t : Tr) : Bool :=
+  !t.clean ||
+  (modulePairs t.pre.st.reg).all (fun p =>
+    match t.post.st.reg.getPair p.id with
+    | some _ => gap t.env t.post p == gap t.env t.pre p + burnedBy t p.addr
+    | none => true)
+
+/-- chain-deployed pairs: the escrow is never less than the total supply (checked on the post-state
+of every operation that started from a state where it held; new pairs directly) -/
+def c03_nativeGe (t : Tr) : Bool :=
+  !t.clean ||
+  (modulePairs t.post.st.reg).all (fun p =>
+    decide (0 ≤ gap t.env t.post p) ||
+    (match t.pre.st.reg.getPair p.id with | some _ => decide (gap t.env t.pre p < 0) | none => false))
+
+/-- external pairs: the bank supply of the coin never exceeds the tokens the module holds -/
+def c03_external (t : Tr) : Bool :=
+  !t.clean ||
+  (externalPairs t.post.st.reg).all (fun p =>
+    decide (t.post.st.bank.supply p.denom ≤ t.post.evm.balOf p.addr t.env.modAddr) ||
+    (match t.pre.st.reg.getPair p.id with
+     | some _ => decide (t.pre.evm.balOf p.addr t.env.modAddr < t.pre.st.bank.supply p.denom)
+     | none => false))
+
 def monitors : List (String × String × (Tr → Bool)) :=
   [("C15", "registry_inv", c15_registryInv), ("C15", "lookups_agree", c15_lookupsAgree),
    ("C15", "list_eq_reachable", c15_listEqReachable),
@@ -383,7 +427,9 @@ def monitors : List (String × String × (Tr → Bool)) :=
    ("C04", "rejected_unchanged", rejectedUnchanged), ("C04", "success_exact_bank", c04_successExactBank),
    ("C04", "success_exact_reported", c04_successExactReported), ("C04", "success_exact_token", c04_successExactToken),
    ("C04", "no_approval", c04_noApproval), ("C04", "transfer_true", c04_transferTrue),
-   ("C04", "roundtrip", c04_roundtrip)]
+   ("C04", "roundtrip", c04_roundtrip),
+   ("C03", "native_backing_exact", c03_nativeExact), ("C03", "native_backing_ge", c03_nativeGe),
+   ("C03", "external_backing", c03_external), ("C03", "rejected_unchanged", rejectedUnchanged)]
 
 end Spec
 end Erc20
